@@ -128,6 +128,27 @@ def enforced_result(fn, ev, call_bb):
     return ("unchecked", "the Result is neither matched with a diverging Err arm nor returned")
 
 
+def flag_enum_info(ctx, W, parsed_adt):
+    """The `verified` flag may be a fieldless two-variant enum (`Verification::{Verified, Unverified}`) instead of a bool: (enum path, index of the
+    variant under which main selects the string "Yes"), or (None, None) for a bool."""
+    P = ctx.prog
+    vty = next((x["ty"] for x in P.adts[parsed_adt]["variants"][0]["fields"] if x["name"] == "verified"), "bool")
+    if not (vty in P.adts and len(P.adts[vty].get("variants", [])) == 2 and not any(v.get("fields") for v in P.adts[vty]["variants"])):
+        return None, None
+    main = ctx.fn("roughenough_client::main")
+    mev = W.ev(main.path)
+    IN = flow.must_facts(main, mev)
+    yes = None
+    for bl in main.blocks:
+        if bl.idx in main.reachable() and any(s_["k"] == "assign" and s_["rv"]["k"] == "use" and "c" in s_["rv"]["op"] and s_["rv"]["op"]["c"].get("str") == "Yes" for s_ in bl.stmts):
+            for r in flow.rel_facts_at(IN, bl.idx):
+                if r[0] == "Eq" and isinstance(r[1], tuple) and r[1][0] == "discr" and r[2][0] == "int":
+                    t0 = values.strip_payload(r[1][1])
+                    if isinstance(t0, tuple) and t0[0] == "field" and t0[2] == "verified":
+                        yes = r[2][1]
+    return vty, yes
+
+
 def verify_triple(ctx, W, fnpath, bb, S):
     """(key, data_seq, sig) of the verification performed by the call at (fn, bb), in terms of fn's own values."""
     fn = ctx.prog.fns[fnpath]
@@ -448,6 +469,7 @@ def run(ctx):
         raise AnchorMissing("exactly one construction of ParsedResponse")
     pfn, pbb, pidx, pfields = pcs[0]
     vterm = pfields.get("verified")
+    flag_enum, yes_variant = flag_enum_info(ctx, W, PARSED)
     # blocks in pfn that define `verified` as true
     pev = W.ev(pfn.path)
     true_blocks = []
@@ -470,6 +492,10 @@ def run(ctx):
                 rv = pfn.blocks[b].stmts[i]["rv"]
                 if rv["k"] == "use" and "c" in rv["op"]:
                     if values.const_term(rv["op"]["c"]) == ("int", 1):
+                        true_blocks.append(b)
+                elif rv["k"] == "agg" and rv.get("ak") == "adt" and not rv.get("ops") and rv.get("adt") == flag_enum:
+                    # a two-valued enum instead of a bool: the variant that prints as "Yes" plays the part of `true`
+                    if rv.get("variant") == yes_variant:
                         true_blocks.append(b)
                 elif rv["k"] == "use":
                     p2 = rv["op"].get("cp") or rv["op"].get("mv")
@@ -577,6 +603,10 @@ def run(ctx):
         for r in rels:
             if r[0] == "True":
                 t0 = values.strip_payload(r[1])
+                if isinstance(t0, tuple) and t0[0] == "field" and t0[2] == "verified":
+                    okv = True
+            if flag_enum and r[0] == "Eq" and isinstance(r[1], tuple) and r[1][0] == "discr" and r[2] == ("int", yes_variant):
+                t0 = values.strip_payload(r[1][1])
                 if isinstance(t0, tuple) and t0[0] == "field" and t0[2] == "verified":
                     okv = True
         ctx.check("verified-flag", "yes-string-only-if-verified", okv, '"Yes" chosen only on the true edge of the verified flag',
@@ -777,7 +807,8 @@ def check_leaf_origin(ctx, W, leaf, NEW, loc):
     for bb, t in main.calls():
         if callee_name(t["fn"].get("path", "")) == "push":
             a = mev.call_args(bb)
-            if len(a) == 2 and a[1][0] == "agg" and a[1][1] == "tuple":
+            # a tuple, or a small record with named fields (`PendingRequest { nonce, request, socket }`)
+            if len(a) == 2 and a[1][0] == "agg" and (a[1][1] == "tuple" or str(a[1][1]).rsplit("::", 1)[0] in P.adts or a[1][1] in P.adts):
                 pushed.append((bb, a[0], a[1]))
     okp = False
     for (bb, cont, tup) in pushed:
